@@ -149,10 +149,13 @@ fn dispatch_table(file: &syn::File) -> Result<String, String> {
     let el = match &e.else_branch { Some((_, b)) => path(norm(&**b))?, None => return Err("get_or_try_init: no else".into()) };
     // get_or_init must go through get_or_try_init
     let gi = find_fn(file, "OnceInitCell", "get_or_init")?;
-    let via = norm(gi.block) == "{matchself.get_or_try_init(|u|Ok::<_,std::convert::Infallible>(f(u))){Ok(v)=>v,Err(never)=>matchnever{}}}";
-    if !via { return Err(format!("get_or_init: unsupported body `{}`", gi.block.to_token_stream())); }
+    // This is a yes/no fact, not a translation: `true` only for exactly the forwarding body, so that any
+    // other implementation of the infallible entry point makes the obligation `C17_get_or_init_forwards`
+    // fail (and the model answer `unmodelled` for get_or_init calls) while the rest of the module stays usable.
+    let via = norm(gi.block) == "{matchself.get_or_try_init(|u|Ok::<_,std::convert::Infallible>(f(u))){Ok(v)=>v,Err(never)=>matchnever{}}}"
+        && norm(gi.sig) == "fnget_or_init(&self,f:implFnOnce(&mutU)->T)->&T";
     Ok(format!(
-        "/-- `get_or_try_init`: implementation picked, by `needs_drop::<U>()` (`get_or_init` wraps `get_or_try_init`). -/\ndef dispatch : Bool → Path\n  | true => {t}\n  | false => {el}\n"
+        "/-- `get_or_try_init`: implementation picked, by `needs_drop::<U>()`. -/\ndef dispatch : Bool → Path\n  | true => {t}\n  | false => {el}\n\n/-- Is the body of `get_or_init(f)` exactly `match self.get_or_try_init(|u| Ok::<_, Infallible>(f(u))) {{ Ok(v) => v, Err(never) => match never {{}} }}`,\ni.e. does the infallible entry point have no code path of its own? -/\ndef getOrInitForwards : Bool := {via}\n"
     ))
 }
 
